@@ -141,7 +141,7 @@ func SubprocessTester(e Engine, base *ReplayFile, dir string, want *Violation) T
 			return false, nil, nil
 		}
 		cmd := exec.Command(os.Args[0], "replay", "-lenient", "-out", outp, in)
-		cmd.Env = append(os.Environ(), "GORACE=halt_on_error=0 exitcode=66 history_size=7 log_path="+in+".race")
+		cmd.Env = append(os.Environ(), "GORACE=halt_on_error=0 exitcode=66 history_size=7 atexit_sleep_ms=0 log_path="+in+".race")
 		cmd.Run()
 		defer func() {
 			m, _ := filepath.Glob(in + ".race.*")
